@@ -8,6 +8,7 @@ from vlib.bench import Bench
 LEVEL = "exploration"
 SHARDS = {"quick": 4, "thorough": 16}
 TIMEOUT = {"quick": 900, "thorough": 2400}
+MIN_EVALUATIONS = {"quick": 6000, "thorough": 6000}  # fewer oracle evaluations than this means the workload collapsed: inconclusive
 RULE = ("identities drawn over the whole domain (vendor / product-type ids 0..65535 incl. every table id and unknown ids, product codes, "
         "revisions 0..255, status bytes, serial boundaries incl. leading-zero nibbles, Latin-1 names of length 0..255 incl. edge whitespace, "
         "any IPv4, state 0..255) are configured in the reference target and read back through CIPDriver.list_identity, _list_identity, "
